@@ -1152,6 +1152,15 @@ impl Exec {
         }
     }
 
+    /// drops whatever writer is left without any API call result being interpreted
+    /// (used after injected faults): uncommitted work is gone
+    pub fn abandon_writer(&mut self) {
+        self.pending_merges.clear();
+        self.writer = None;
+        self.model.rollback();
+        self.op_stamps.clear();
+    }
+
     /// waits for async merges started by the history (results are not interpreted)
     pub fn drain_merges(&mut self) {
         for f in self.pending_merges.drain(..) {
